@@ -25,9 +25,14 @@ structure Inv (s : St) : Prop where
   lockOwner : ∀ t, (s.pc t).inCs = true → s.lock = some t
   sawNone : ∀ t, (s.pc t).sawNone = true → s.ring = none
   storesBound : s.stores ≤ s.deletes + (if s.ring.isSome then 1 else 0)
+  poisonFree : s.poisoned = true → s.lock = none
 
-theorem inv_init (r : Option Nat) : Inv (init r) := by
+theorem inv_init (r : Option Nat) (p : Bool) : Inv (init r p) := by
   constructor <;> simp [init, Pc.inCs, Pc.sawNone]
+
+/-- closes the `poisonFree` part of a step case: the lock became free, or lock and flag are unchanged -/
+local macro "poison_tac" h:ident : tactic =>
+  `(tactic| first | (intro _; simp [setPc, log]; done) | (simpa [setPc, log] using $h))
 
 /-- at most one caller is inside the locked section -/
 theorem Inv.cs_unique {s : St} (h : Inv s) {t u : Nat}
@@ -38,8 +43,8 @@ theorem Inv.cs_unique {s : St} (h : Inv s) {t u : Nat}
 private theorem sawNone_inCs {p : Pc} (h : p.sawNone = true) : p.inCs = true := by
   cases p <;> simp_all [Pc.sawNone, Pc.inCs]
 
-theorem inv_stepThread (s : St) (t fresh : Nat) (ok : Bool) (h : Inv s) : Inv (stepThread s t fresh ok) := by
-  obtain ⟨h1, h2, h3⟩ := h
+theorem inv_stepThread (s : St) (t fresh : Nat) (ok : Bool) (h : Inv s) : Inv (stepThread true s t fresh ok) := by
+  obtain ⟨h1, h2, h3, h4⟩ := h
   unfold stepThread
   split
   · -- start
@@ -48,7 +53,7 @@ theorem inv_stepThread (s : St) (t fresh : Nat) (ok : Bool) (h : Inv s) : Inv (s
       intro u hu e; subst e; simp [hp, Pc.inCs] at hu
     split
     · split
-      · refine ⟨?_, ?_, ?_⟩
+      · refine ⟨?_, ?_, ?_, ?_⟩
         · intro u hu
           by_cases e : u = t
           · subst e; simp [setPc, Pc.inCs] at hu
@@ -58,7 +63,8 @@ theorem inv_stepThread (s : St) (t fresh : Nat) (ok : Bool) (h : Inv s) : Inv (s
           · subst e; simp [setPc, Pc.sawNone] at hu
           · simp [setPc, e] at hu; simpa [setPc, log] using h2 u hu
         · exact h3
-      · refine ⟨?_, ?_, ?_⟩
+        · poison_tac h4
+      · refine ⟨?_, ?_, ?_, ?_⟩
         · intro u hu
           by_cases e : u = t
           · subst e; simp [setPc, Pc.inCs] at hu
@@ -68,7 +74,8 @@ theorem inv_stepThread (s : St) (t fresh : Nat) (ok : Bool) (h : Inv s) : Inv (s
           · subst e; simp [setPc, Pc.sawNone] at hu
           · simp [setPc, e] at hu; simpa [setPc, log] using h2 u hu
         · exact h3
-    · refine ⟨?_, ?_, ?_⟩
+        · poison_tac h4
+    · refine ⟨?_, ?_, ?_, ?_⟩
       · intro u hu
         by_cases e : u = t
         · subst e; simp [setPc, Pc.inCs] at hu
@@ -78,22 +85,39 @@ theorem inv_stepThread (s : St) (t fresh : Nat) (ok : Bool) (h : Inv s) : Inv (s
         · subst e; simp [setPc, Pc.sawNone] at hu
         · simp [setPc, e] at hu; simpa [setPc, log] using h2 u hu
       · exact h3
+      · poison_tac h4
   · -- wantLock
     rename_i hp
     split
     · rename_i hl
-      refine ⟨?_, ?_, ?_⟩
-      · intro u hu
-        by_cases e : u = t
-        · subst e; simp [setPc, log]
-        · simp [setPc, e] at hu
-          have := h1 u hu; rw [hl] at this; cases this
-      · intro u hu
-        by_cases e : u = t
-        · subst e; simp [setPc, Pc.sawNone] at hu
-        · simp [setPc, e] at hu; simpa [setPc, log] using h2 u hu
-      · exact h3
-    · exact ⟨h1, h2, h3⟩
+      split
+      · -- poisoned: fails closed
+        simp only [if_true]
+        refine ⟨?_, ?_, ?_, ?_⟩
+        · intro u hu
+          by_cases e : u = t
+          · subst e; simp [setPc, Pc.inCs] at hu
+          · simp [setPc, e] at hu; simpa [setPc, log] using h1 u hu
+        · intro u hu
+          by_cases e : u = t
+          · subst e; simp [setPc, Pc.sawNone] at hu
+          · simp [setPc, e] at hu; simpa [setPc, log] using h2 u hu
+        · exact h3
+        · poison_tac h4
+      · rename_i hq
+        refine ⟨?_, ?_, ?_, ?_⟩
+        · intro u hu
+          by_cases e : u = t
+          · subst e; simp [setPc, log]
+          · simp [setPc, e] at hu
+            have := h1 u hu; rw [hl] at this; cases this
+        · intro u hu
+          by_cases e : u = t
+          · subst e; simp [setPc, Pc.sawNone] at hu
+          · simp [setPc, e] at hu; simpa [setPc, log] using h2 u hu
+        · exact h3
+        · intro hq'; simp [setPc, log] at hq'; exact absurd hq' hq
+    · exact ⟨h1, h2, h3, h4⟩
   · -- locked
     rename_i hp
     have hl : s.lock = some t := h1 t (by simp [hp, Pc.inCs])
@@ -101,7 +125,7 @@ theorem inv_stepThread (s : St) (t fresh : Nat) (ok : Bool) (h : Inv s) : Inv (s
       intro u hu; have := h1 u hu; rw [hl] at this; exact (Option.some.inj this).symm
     split
     · split
-      · refine ⟨?_, ?_, ?_⟩
+      · refine ⟨?_, ?_, ?_, ?_⟩
         · intro u hu
           by_cases e : u = t
           · subst e; simp [setPc, Pc.inCs] at hu
@@ -111,8 +135,9 @@ theorem inv_stepThread (s : St) (t fresh : Nat) (ok : Bool) (h : Inv s) : Inv (s
           · subst e; simp [setPc, Pc.sawNone] at hu
           · simp [setPc, e] at hu; exact absurd (huniq u (sawNone_inCs hu)) e
         · exact h3
+        · poison_tac h4
       · rename_i hr
-        refine ⟨?_, ?_, ?_⟩
+        refine ⟨?_, ?_, ?_, ?_⟩
         · intro u hu
           by_cases e : u = t
           · subst e; simpa [setPc, log] using hl
@@ -120,7 +145,8 @@ theorem inv_stepThread (s : St) (t fresh : Nat) (ok : Bool) (h : Inv s) : Inv (s
         · intro u hu
           simpa [setPc, log] using hr
         · exact h3
-    · refine ⟨?_, ?_, ?_⟩
+        · poison_tac h4
+    · refine ⟨?_, ?_, ?_, ?_⟩
       · intro u hu
         by_cases e : u = t
         · subst e; simp [setPc, Pc.inCs] at hu
@@ -130,6 +156,7 @@ theorem inv_stepThread (s : St) (t fresh : Nat) (ok : Bool) (h : Inv s) : Inv (s
         · subst e; simp [setPc, Pc.sawNone] at hu
         · simp [setPc, e] at hu; exact absurd (huniq u (sawNone_inCs hu)) e
       · exact h3
+      · poison_tac h4
   · -- gen
     rename_i hp
     have hl : s.lock = some t := h1 t (by simp [hp, Pc.inCs])
@@ -137,7 +164,7 @@ theorem inv_stepThread (s : St) (t fresh : Nat) (ok : Bool) (h : Inv s) : Inv (s
     have huniq : ∀ u, (s.pc u).inCs = true → u = t := by
       intro u hu; have := h1 u hu; rw [hl] at this; exact (Option.some.inj this).symm
     split
-    · refine ⟨?_, ?_, ?_⟩
+    · refine ⟨?_, ?_, ?_, ?_⟩
       · intro u hu
         by_cases e : u = t
         · subst e; simpa [setPc, log] using hl
@@ -145,7 +172,8 @@ theorem inv_stepThread (s : St) (t fresh : Nat) (ok : Bool) (h : Inv s) : Inv (s
       · intro u hu
         simpa [setPc, log] using hr
       · exact h3
-    · refine ⟨?_, ?_, ?_⟩
+      · poison_tac h4
+    · refine ⟨?_, ?_, ?_, ?_⟩
       · intro u hu
         by_cases e : u = t
         · subst e; simp [setPc, Pc.inCs] at hu
@@ -155,6 +183,7 @@ theorem inv_stepThread (s : St) (t fresh : Nat) (ok : Bool) (h : Inv s) : Inv (s
         · subst e; simp [setPc, Pc.sawNone] at hu
         · simp [setPc, e] at hu; exact absurd (huniq u (sawNone_inCs hu)) e
       · exact h3
+      · poison_tac h4
   · -- store k
     rename_i k hp
     have hl : s.lock = some t := h1 t (by simp [hp, Pc.inCs])
@@ -162,7 +191,7 @@ theorem inv_stepThread (s : St) (t fresh : Nat) (ok : Bool) (h : Inv s) : Inv (s
     have huniq : ∀ u, (s.pc u).inCs = true → u = t := by
       intro u hu; have := h1 u hu; rw [hl] at this; exact (Option.some.inj this).symm
     split
-    · refine ⟨?_, ?_, ?_⟩
+    · refine ⟨?_, ?_, ?_, ?_⟩
       · intro u hu
         by_cases e : u = t
         · subst e; simp [setPc, Pc.inCs] at hu
@@ -172,7 +201,8 @@ theorem inv_stepThread (s : St) (t fresh : Nat) (ok : Bool) (h : Inv s) : Inv (s
         · subst e; simp [setPc, Pc.sawNone] at hu
         · simp [setPc, e] at hu; exact absurd (huniq u (sawNone_inCs hu)) e
       · simp [hr] at h3; simp [setPc, log]; omega
-    · refine ⟨?_, ?_, ?_⟩
+      · poison_tac h4
+    · refine ⟨?_, ?_, ?_, ?_⟩
       · intro u hu
         by_cases e : u = t
         · subst e; simp [setPc, Pc.inCs] at hu
@@ -182,26 +212,65 @@ theorem inv_stepThread (s : St) (t fresh : Nat) (ok : Bool) (h : Inv s) : Inv (s
         · subst e; simp [setPc, Pc.sawNone] at hu
         · simp [setPc, e] at hu; exact absurd (huniq u (sawNone_inCs hu)) e
       · exact h3
-  · exact ⟨h1, h2, h3⟩
-  · exact ⟨h1, h2, h3⟩
+      · poison_tac h4
+  · exact ⟨h1, h2, h3, h4⟩
+  · exact ⟨h1, h2, h3, h4⟩
 
-theorem inv_step (s : St) (e : Ev) (h : Inv s) : Inv (step s e) := by
+theorem inv_panicThread (s : St) (t : Nat) (h : Inv s) : Inv (panicThread s t) := by
+  obtain ⟨h1, h2, h3, h4⟩ := h
+  unfold panicThread
+  split
+  · exact ⟨h1, h2, h3, h4⟩
+  · exact ⟨h1, h2, h3, h4⟩
+  · split
+    · rename_i hl
+      refine ⟨?_, ?_, ?_, ?_⟩
+      · intro u hu
+        by_cases e : u = t
+        · subst e; simp [setPc, Pc.inCs] at hu
+        · simp [setPc, e] at hu
+          have := h1 u hu; rw [hl] at this; exact absurd (Option.some.inj this).symm e
+      · intro u hu
+        by_cases e : u = t
+        · subst e; simp [setPc, Pc.sawNone] at hu
+        · simp [setPc, e] at hu; simpa [setPc] using h2 u hu
+      · exact h3
+      · intro _; simp [setPc]
+    · refine ⟨?_, ?_, ?_, ?_⟩
+      · intro u hu
+        by_cases e : u = t
+        · subst e; simp [setPc, Pc.inCs] at hu
+        · simp [setPc, e] at hu; simpa [setPc] using h1 u hu
+      · intro u hu
+        by_cases e : u = t
+        · subst e; simp [setPc, Pc.sawNone] at hu
+        · simp [setPc, e] at hu; simpa [setPc] using h2 u hu
+      · exact h3
+      · simpa [setPc] using h4
+
+theorem inv_step (s : St) (e : Ev) (h : Inv s) : Inv (step true s e) := by
   cases e with
   | step t fresh ok => exact inv_stepThread s t fresh ok h
   | delete =>
-    obtain ⟨h1, h2, h3⟩ := h
+    obtain ⟨h1, h2, h3, h4⟩ := h
     simp only [step]
     split
     · rename_i k hr
-      refine ⟨h1, ?_, ?_⟩
+      refine ⟨h1, ?_, ?_, h4⟩
       · intro u _; rfl
       · simp [hr] at h3; simp; omega
-    · exact ⟨h1, h2, h3⟩
+    · exact ⟨h1, h2, h3, h4⟩
+  | panic t => exact inv_panicThread s t h
 
-theorem inv_run (s : St) (sched : List Ev) (h : Inv s) : Inv (run s sched) := by
+theorem inv_run (s : St) (sched : List Ev) (h : Inv s) : Inv (run true s sched) := by
   induction sched generalizing s with
   | nil => exact h
   | cons e es ih => exact ih _ (inv_step s e h)
+
+theorem run_append (fc : Bool) (s : St) (a b : List Ev) : run fc s (a ++ b) = run fc (run fc s a) b := by
+  induction a generalizing s with
+  | nil => rfl
+  | cons e es ih => simp [run, ih]
 
 /-- invariant of the delete-free schedules, relative to the initial keyring content `r0` -/
 structure InvN (r0 : Option Nat) (s : St) : Prop where
@@ -210,38 +279,285 @@ structure InvN (r0 : Option Nat) (s : St) : Prop where
   doneKey : ∀ t k, s.pc t = .done k → s.ring = some k
   keep : ∀ k0, r0 = some k0 → s.ring = some k0 ∧ s.stores = 0
 
-theorem invN_init (r : Option Nat) : InvN r (init r) := by
-  refine ⟨inv_init r, rfl, ?_, ?_⟩
+theorem invN_init (r : Option Nat) (p : Bool) : InvN r (init r p) := by
+  refine ⟨inv_init r p, rfl, ?_, ?_⟩
   · intro t k h; simp [init] at h
   · intro k0 h; simp [init, h]
 
-theorem stepThread_pc_other (s : St) (t fresh : Nat) (ok : Bool) (u : Nat) (h : u ≠ t) :
-    (stepThread s t fresh ok).pc u = s.pc u := by
-  cases hp : s.pc t <;> cases ok <;> cases hr : s.ring <;> cases hl : s.lock <;>
-    simp [stepThread, hp, hr, hl, setPc, log, h]
+theorem stepThread_pc_other (fc : Bool) (s : St) (t fresh : Nat) (ok : Bool) (u : Nat) (h : u ≠ t) :
+    (stepThread fc s t fresh ok).pc u = s.pc u := by
+  cases hp : s.pc t <;> cases ok <;> cases hr : s.ring <;> cases hl : s.lock <;> cases hq : s.poisoned <;>
+    cases fc <;> simp [stepThread, hp, hr, hl, hq, setPc, log, h]
 
-theorem stepThread_deletes (s : St) (t fresh : Nat) (ok : Bool) :
-    (stepThread s t fresh ok).deletes = s.deletes := by
-  cases hp : s.pc t <;> cases ok <;> cases hr : s.ring <;> cases hl : s.lock <;>
-    simp [stepThread, hp, hr, hl, setPc, log]
+theorem stepThread_deletes (fc : Bool) (s : St) (t fresh : Nat) (ok : Bool) :
+    (stepThread fc s t fresh ok).deletes = s.deletes := by
+  cases hp : s.pc t <;> cases ok <;> cases hr : s.ring <;> cases hl : s.lock <;> cases hq : s.poisoned <;>
+    cases fc <;> simp [stepThread, hp, hr, hl, hq, setPc, log]
+
+/-- no protocol step touches the poison flag: only a panic sets it, nothing clears it -/
+theorem stepThread_poisoned (fc : Bool) (s : St) (t fresh : Nat) (ok : Bool) :
+    (stepThread fc s t fresh ok).poisoned = s.poisoned := by
+  cases hp : s.pc t <;> cases ok <;> cases hr : s.ring <;> cases hl : s.lock <;> cases hq : s.poisoned <;>
+    cases fc <;> simp [stepThread, hp, hr, hl, hq, setPc, log]
 
 /-- the keyring changes only in a successful store step -/
-theorem stepThread_ring (s : St) (t fresh : Nat) (ok : Bool) :
-    ((stepThread s t fresh ok).ring = s.ring ∧ (stepThread s t fresh ok).stores = s.stores) ∨
-    (∃ k, s.pc t = .store k ∧ (stepThread s t fresh ok).ring = some k ∧
-      (stepThread s t fresh ok).pc t = .done k) := by
-  cases hp : s.pc t <;> cases ok <;> cases hr : s.ring <;> cases hl : s.lock <;>
-    simp [stepThread, hp, hr, hl, setPc, log]
+theorem stepThread_ring (fc : Bool) (s : St) (t fresh : Nat) (ok : Bool) :
+    ((stepThread fc s t fresh ok).ring = s.ring ∧ (stepThread fc s t fresh ok).stores = s.stores) ∨
+    (∃ k, s.pc t = .store k ∧ (stepThread fc s t fresh ok).ring = some k ∧
+      (stepThread fc s t fresh ok).pc t = .done k) := by
+  cases hp : s.pc t <;> cases ok <;> cases hr : s.ring <;> cases hl : s.lock <;> cases hq : s.poisoned <;>
+    cases fc <;> simp [stepThread, hp, hr, hl, hq, setPc, log]
 
 /-- a caller is `done k` after a step only if it was before, or it just read / stored `k` -/
-theorem stepThread_done (s : St) (t fresh : Nat) (ok : Bool) (k : Nat)
-    (h : (stepThread s t fresh ok).pc t = .done k) :
-    s.pc t = .done k ∨ (stepThread s t fresh ok).ring = some k := by
-  cases hp : s.pc t <;> cases ok <;> cases hr : s.ring <;> cases hl : s.lock <;>
-    simp_all [stepThread, setPc, log]
+theorem stepThread_done (fc : Bool) (s : St) (t fresh : Nat) (ok : Bool) (k : Nat)
+    (h : (stepThread fc s t fresh ok).pc t = .done k) :
+    s.pc t = .done k ∨ (stepThread fc s t fresh ok).ring = some k := by
+  cases hp : s.pc t <;> cases ok <;> cases hr : s.ring <;> cases hl : s.lock <;> cases hq : s.poisoned <;>
+    cases fc <;> simp_all [stepThread, setPc, log]
+
+/-- a panic touches neither the keyring nor the counters -/
+theorem panicThread_frame (s : St) (t : Nat) :
+    (panicThread s t).ring = s.ring ∧ (panicThread s t).stores = s.stores ∧
+    (panicThread s t).deletes = s.deletes := by
+  unfold panicThread
+  split
+  · exact ⟨rfl, rfl, rfl⟩
+  · exact ⟨rfl, rfl, rfl⟩
+  · split <;> exact ⟨rfl, rfl, rfl⟩
+
+theorem panicThread_pc_other (s : St) (t u : Nat) (h : u ≠ t) : (panicThread s t).pc u = s.pc u := by
+  unfold panicThread
+  split
+  · rfl
+  · rfl
+  · split <;> simp [setPc, h]
+
+/-- a panic never makes anybody `done` -/
+theorem panicThread_done (s : St) (t u k : Nat) (h : (panicThread s t).pc u = .done k) : s.pc u = .done k := by
+  by_cases e : u = t
+  · subst e
+    unfold panicThread at h
+    split at h
+    · exact h
+    · exact h
+    · split at h <;> simp [setPc] at h
+  · rwa [panicThread_pc_other s t u e] at h
+
+/-- a panic only sets the flag, and only when the panicking caller holds the lock -/
+theorem panicThread_poisoned (s : St) (t : Nat) :
+    (panicThread s t).poisoned = s.poisoned ∨ ((panicThread s t).poisoned = true ∧ s.lock = some t) := by
+  unfold panicThread
+  split
+  · exact .inl rfl
+  · exact .inl rfl
+  · split
+    · rename_i hl; exact .inr ⟨by simp [setPc], hl⟩
+    · exact .inl (by simp [setPc])
+
+theorem panicThread_poisoned_mono (s : St) (t : Nat) (h : s.poisoned = true) : (panicThread s t).poisoned = true := by
+  rcases panicThread_poisoned s t with h1 | h1
+  · rw [h1]; exact h
+  · exact h1.1
+
+theorem step_poisoned_mono (fc : Bool) (s : St) (e : Ev) (h : s.poisoned = true) : (step fc s e).poisoned = true := by
+  cases e with
+  | step t fresh ok => simp only [step]; rw [stepThread_poisoned]; exact h
+  | delete => simp only [step]; split <;> exact h
+  | panic t => exact panicThread_poisoned_mono s t h
+
+theorem run_poisoned_mono (fc : Bool) (s : St) (sched : List Ev) (h : s.poisoned = true) :
+    (run fc s sched).poisoned = true := by
+  induction sched generalizing s with
+  | nil => exact h
+  | cons e es ih => exact ih _ (step_poisoned_mono fc s e h)
+
+/-- the flag is set only by a panic of the caller that holds the lock -/
+theorem step_poisons (fc : Bool) (s : St) (e : Ev) (h0 : s.poisoned = false) (h : (step fc s e).poisoned = true) :
+    ∃ t, e = .panic t ∧ s.lock = some t := by
+  cases e with
+  | step t fresh ok => simp only [step] at h; rw [stepThread_poisoned, h0] at h; cases h
+  | delete =>
+    simp only [step] at h
+    split at h <;> (have h' : s.poisoned = true := h; rw [h0] at h'; cases h')
+  | panic t =>
+    rcases panicThread_poisoned s t with h1 | h1
+    · simp only [step] at h; rw [h1, h0] at h; cases h
+    · exact ⟨t, rfl, h1.2⟩
+
+theorem run_poisons (fc : Bool) (s : St) (sched : List Ev) (h0 : s.poisoned = false)
+    (h : (run fc s sched).poisoned = true) :
+    ∃ pre t post, sched = pre ++ .panic t :: post ∧ (run fc s pre).lock = some t := by
+  induction sched generalizing s with
+  | nil => simp only [run] at h; rw [h0] at h; cases h
+  | cons e es ih =>
+    cases hq : (step fc s e).poisoned with
+    | true =>
+      obtain ⟨t, he, hl⟩ := step_poisons fc s e h0 hq
+      exact ⟨[], t, es, by simp [he], hl⟩
+    | false =>
+      obtain ⟨pre, t, post, h1, h2⟩ := ih (step fc s e) hq h
+      exact ⟨e :: pre, t, post, by simp [h1], h2⟩
+
+/-- without panics the flag never changes -/
+theorem run_no_panic_poisoned (fc : Bool) (s : St) (sched : List Ev) (hnp : sched.all (fun e => !e.isPanic) = true) :
+    (run fc s sched).poisoned = s.poisoned := by
+  induction sched generalizing s with
+  | nil => rfl
+  | cons e es ih =>
+    simp only [List.all_cons, Bool.and_eq_true] at hnp
+    simp only [run]
+    rw [ih _ hnp.2]
+    cases e with
+    | step t fresh ok => exact stepThread_poisoned fc s t fresh ok
+    | delete => simp only [step]; split <;> rfl
+    | panic t => simp [Ev.isPanic] at hnp
+
+/-- with the fail-closed rule the lock is held only by a caller inside the locked section (the guard
+    is released on every way out, a panic included) -/
+def LockHeld (s : St) : Prop := ∀ t, s.lock = some t → (s.pc t).inCs = true
+
+theorem lockHeld_stepThread (s : St) (t fresh : Nat) (ok : Bool) (hi : Inv s) (h : LockHeld s) :
+    LockHeld (stepThread true s t fresh ok) := by
+  intro u hu
+  have hcs := hi.lockOwner
+  by_cases e : u = t
+  · subst e
+    have := h u
+    cases hp : s.pc u <;> cases ok <;> cases hr : s.ring <;> cases hl : s.lock <;> cases hq : s.poisoned <;>
+      simp_all [stepThread, setPc, log, Pc.inCs]
+  · rw [stepThread_pc_other true s t fresh ok u e]
+    have hl : s.lock = some u := by
+      have ht := hcs t
+      cases hp : s.pc t <;> cases ok <;> cases hr : s.ring <;> cases hl : s.lock <;> cases hq : s.poisoned <;>
+        simp_all [stepThread, setPc, log, Pc.inCs]
+    exact h u hl
+
+theorem panicThread_eq (s : St) (t : Nat) :
+    panicThread s t = s ∨
+    (s.lock = some t ∧ panicThread s t = setPc { s with lock := none, poisoned := true } t .failed) ∨
+    (s.lock ≠ some t ∧ panicThread s t = setPc s t .failed) := by
+  unfold panicThread
+  split
+  · exact .inl rfl
+  · exact .inl rfl
+  · split
+    · rename_i hl; exact .inr (.inl ⟨hl, rfl⟩)
+    · rename_i hl; exact .inr (.inr ⟨hl, rfl⟩)
+
+theorem lockHeld_panicThread (s : St) (t : Nat) (h : LockHeld s) : LockHeld (panicThread s t) := by
+  intro u hu
+  rcases panicThread_eq s t with h1 | ⟨_, h1⟩ | ⟨hl, h1⟩
+  · rw [h1] at hu ⊢; exact h u hu
+  · rw [h1] at hu; simp [setPc] at hu
+  · rw [h1] at hu ⊢
+    have hu' : s.lock = some u := by simpa [setPc] using hu
+    have hne : u ≠ t := by intro e; subst e; exact hl hu'
+    simp only [setPc, hne, if_false]; exact h u hu'
+
+theorem lockHeld_step (s : St) (e : Ev) (hi : Inv s) (h : LockHeld s) : LockHeld (step true s e) := by
+  cases e with
+  | step t fresh ok => exact lockHeld_stepThread s t fresh ok hi h
+  | delete => simp only [step]; split <;> exact h
+  | panic t => exact lockHeld_panicThread s t h
+
+theorem lockHeld_run (s : St) (sched : List Ev) (hi : Inv s) (h : LockHeld s) : LockHeld (run true s sched) := by
+  induction sched generalizing s with
+  | nil => exact h
+  | cons e es ih => exact ih _ (inv_step s e hi) (lockHeld_step s e hi h)
+
+theorem lockHeld_init (r : Option Nat) (p : Bool) : LockHeld (init r p) := by
+  intro t h; simp [init] at h
+
+/-! ### once the lock is poisoned (fail-closed rule) nothing is ever stored again -/
+
+/-- what a poisoned state `s` may still become, relative to the state `s0` it was poisoned in -/
+structure Frozen (s0 s : St) : Prop where
+  inv : Inv s
+  poisoned : s.poisoned = true
+  stores : s.stores = s0.stores
+  ring : s.ring = s0.ring ∨ s.ring = none
+  ringKeep : s.deletes = s0.deletes → s.ring = s0.ring
+  deletes : s0.deletes ≤ s.deletes
+  done : ∀ t k, s.pc t = .done k → s0.pc t = .done k ∨ s0.ring = some k
+
+theorem frozen_refl (s : St) (hi : Inv s) (hp : s.poisoned = true) : Frozen s s :=
+  ⟨hi, hp, rfl, .inl rfl, fun _ => rfl, Nat.le_refl _, fun _ _ h => .inl h⟩
+
+/-- a protocol step in a poisoned state (fail-closed rule): nothing stored, keyring untouched, and
+    whoever returns `Ok k` read `k` from the keyring -/
+theorem stepThread_when_poisoned (s : St) (t fresh : Nat) (ok : Bool) (hi : Inv s) (hp : s.poisoned = true) :
+    (stepThread true s t fresh ok).stores = s.stores ∧ (stepThread true s t fresh ok).ring = s.ring ∧
+    ∀ k, (stepThread true s t fresh ok).pc t = .done k → s.pc t = .done k ∨ s.ring = some k := by
+  have hl : s.lock = none := hi.poisonFree hp
+  have hcs := hi.lockOwner t
+  cases hpc : s.pc t <;> cases ok <;> cases hr : s.ring <;>
+    simp_all [stepThread, setPc, log, Pc.inCs]
+
+theorem frozen_step (s0 s : St) (e : Ev) (h : Frozen s0 s) : Frozen s0 (step true s e) := by
+  obtain ⟨hi, hp, hs, hr, hrk, hd, hdone⟩ := h
+  refine ⟨inv_step s e hi, step_poisoned_mono true s e hp, ?_, ?_, ?_, ?_, ?_⟩
+  · cases e with
+    | step t fresh ok => simp only [step]; rw [(stepThread_when_poisoned s t fresh ok hi hp).1]; exact hs
+    | delete => simp only [step]; split <;> exact hs
+    | panic t => simp only [step]; rw [(panicThread_frame s t).2.1]; exact hs
+  · cases e with
+    | step t fresh ok => simp only [step]; rw [(stepThread_when_poisoned s t fresh ok hi hp).2.1]; exact hr
+    | delete => simp only [step]; split
+                · exact .inr rfl
+                · exact hr
+    | panic t => simp only [step]; rw [(panicThread_frame s t).1]; exact hr
+  · cases e with
+    | step t fresh ok =>
+      simp only [step]; rw [(stepThread_when_poisoned s t fresh ok hi hp).2.1, stepThread_deletes]; exact hrk
+    | delete =>
+      simp only [step]; split
+      · intro hc; simp at hc; omega
+      · exact hrk
+    | panic t => simp only [step]; rw [(panicThread_frame s t).1, (panicThread_frame s t).2.2]; exact hrk
+  · cases e with
+    | step t fresh ok => simp only [step]; rw [stepThread_deletes]; exact hd
+    | delete => simp only [step]; split
+                · simp; omega
+                · exact hd
+    | panic t => simp only [step]; rw [(panicThread_frame s t).2.2]; exact hd
+  · intro u k hu
+    cases e with
+    | step t fresh ok =>
+      simp only [step] at hu
+      by_cases e : u = t
+      · subst e
+        rcases (stepThread_when_poisoned s u fresh ok hi hp).2.2 k hu with h1 | h1
+        · exact hdone u k h1
+        · rcases hr with h2 | h2
+          · exact .inr (by rw [← h2]; exact h1)
+          · rw [h2] at h1; cases h1
+      · rw [stepThread_pc_other true s t fresh ok u e] at hu; exact hdone u k hu
+    | delete =>
+      simp only [step] at hu
+      split at hu <;> exact hdone u k hu
+    | panic t => exact hdone u k (panicThread_done s t u k hu)
+
+theorem frozen_run (s0 s : St) (sched : List Ev) (h : Frozen s0 s) : Frozen s0 (run true s sched) := by
+  induction sched generalizing s with
+  | nil => exact h
+  | cons e es ih => exact ih _ (frozen_step s0 s e h)
+
+/-- deletes are counted: a delete-free schedule leaves the counter alone -/
+theorem run_noDelete_deletes (fc : Bool) (s : St) (sched : List Ev) (hnd : noDelete sched = true) :
+    (run fc s sched).deletes = s.deletes := by
+  induction sched generalizing s with
+  | nil => rfl
+  | cons e es ih =>
+    simp only [noDelete, List.all_cons, Bool.and_eq_true] at hnd
+    simp only [run]
+    rw [ih _ (by simpa [noDelete] using hnd.2)]
+    cases e with
+    | step t fresh ok => exact stepThread_deletes fc s t fresh ok
+    | delete => simp [Ev.isDelete] at hnd
+    | panic t => exact (panicThread_frame s t).2.2
 
 theorem invN_stepThread (r0 : Option Nat) (s : St) (t fresh : Nat) (ok : Bool) (h : InvN r0 s) :
-    InvN r0 (stepThread s t fresh ok) := by
+    InvN r0 (stepThread true s t fresh ok) := by
   obtain ⟨hb, hd, hk, hkeep⟩ := h
   have hb' := inv_stepThread s t fresh ok hb
   refine ⟨hb', ?_, ?_, ?_⟩
@@ -249,25 +565,32 @@ theorem invN_stepThread (r0 : Option Nat) (s : St) (t fresh : Nat) (ok : Bool) (
   · intro u k hu
     by_cases e : u = t
     · subst e
-      rcases stepThread_done s u fresh ok k hu with h1 | h1
-      · rcases stepThread_ring s u fresh ok with ⟨h2, _⟩ | ⟨k', h2, _, _⟩
+      rcases stepThread_done true s u fresh ok k hu with h1 | h1
+      · rcases stepThread_ring true s u fresh ok with ⟨h2, _⟩ | ⟨k', h2, _, _⟩
         · rw [h2]; exact hk u k h1
         · rw [h1] at h2; cases h2
       · exact h1
-    · rw [stepThread_pc_other s t fresh ok u e] at hu
-      rcases stepThread_ring s t fresh ok with ⟨h2, _⟩ | ⟨k', h2, _, _⟩
+    · rw [stepThread_pc_other true s t fresh ok u e] at hu
+      rcases stepThread_ring true s t fresh ok with ⟨h2, _⟩ | ⟨k', h2, _, _⟩
       · rw [h2]; exact hk u k hu
       · have hr : s.ring = none := hb.sawNone t (by simp [h2, Pc.sawNone])
         have := hk u k hu; rw [hr] at this; cases this
   · intro k0 hr0
     obtain ⟨hring, hst⟩ := hkeep k0 hr0
-    rcases stepThread_ring s t fresh ok with ⟨h2, h3⟩ | ⟨k', h2, _, _⟩
+    rcases stepThread_ring true s t fresh ok with ⟨h2, h3⟩ | ⟨k', h2, _, _⟩
     · rw [h2, h3]; exact ⟨hring, hst⟩
     · have hr : s.ring = none := hb.sawNone t (by simp [h2, Pc.sawNone])
       rw [hr] at hring; cases hring
 
+theorem invN_panicThread (r0 : Option Nat) (s : St) (t : Nat) (h : InvN r0 s) : InvN r0 (panicThread s t) := by
+  obtain ⟨hb, hd, hk, hkeep⟩ := h
+  obtain ⟨f1, f2, f3⟩ := panicThread_frame s t
+  refine ⟨inv_panicThread s t hb, by rw [f3]; exact hd, ?_, ?_⟩
+  · intro u k hu; rw [f1]; exact hk u k (panicThread_done s t u k hu)
+  · intro k0 hr0; rw [f1, f2]; exact hkeep k0 hr0
+
 theorem invN_run (r0 : Option Nat) (s : St) (sched : List Ev) (hnd : noDelete sched = true) (h : InvN r0 s) :
-    InvN r0 (run s sched) := by
+    InvN r0 (run true s sched) := by
   induction sched generalizing s with
   | nil => exact h
   | cons e es ih =>
@@ -275,16 +598,23 @@ theorem invN_run (r0 : Option Nat) (s : St) (sched : List Ev) (hnd : noDelete sc
     cases e with
     | step t fresh ok => exact ih _ (by simpa [noDelete] using hnd.2) (invN_stepThread r0 s t fresh ok h)
     | delete => simp [Ev.isDelete] at hnd
+    | panic t => exact ih _ (by simpa [noDelete] using hnd.2) (invN_panicThread r0 s t h)
 
 /-! ## concurrent `MdkSqliteStorage::new` -/
 
 /-- without deletes an entry, once present, stays -/
 theorem stepThread_ring_some (s : St) (t fresh : Nat) (ok : Bool) (h : Inv s) (k : Nat)
-    (hr : s.ring = some k) : (stepThread s t fresh ok).ring = some k := by
-  rcases stepThread_ring s t fresh ok with ⟨h2, _⟩ | ⟨k', h2, _, _⟩
+    (hr : s.ring = some k) : (stepThread true s t fresh ok).ring = some k := by
+  rcases stepThread_ring true s t fresh ok with ⟨h2, _⟩ | ⟨k', h2, _, _⟩
   · rw [h2]; exact hr
   · have : s.ring = none := h.sawNone t (by simp [h2, Pc.sawNone])
     rw [this] at hr; cases hr
+
+/-- with a working keyring a protocol step returns `Err` only because the lock is poisoned -/
+theorem stepThread_failed_why (s : St) (t fresh : Nat) (h : (stepThread true s t fresh true).pc t = .failed) :
+    s.pc t = .failed ∨ s.poisoned = true := by
+  cases hp : s.pc t <;> cases hr : s.ring <;> cases hl : s.lock <;> cases hq : s.poisoned <;>
+    simp_all [stepThread, setPc, log]
 
 /-- the key a caller has committed to, if any -/
 def NPc.key : NPc → Option Nat
@@ -297,274 +627,320 @@ structure NInv (s : NSt) : Prop where
   keyIsRing : ∀ t k, (s.pc t).key = some k → s.k.ring = some k
   fileKey : ∀ k, s.file = .enc k → s.k.ring = some k
   noWrongKey : ∀ t, s.pc t ≠ .err .wrongKey
-  noKeyringErr : ∀ t, s.pc t ≠ .err .keyring
-  notFailed : ∀ t, s.k.pc t ≠ .failed
+  /-- `Error::Keyring` is returned only when KEY_GENERATION_LOCK is poisoned -/
+  keyringErr : ∀ t, s.pc t = .err .keyring → s.k.poisoned = true
+  /-- `get_or_create_db_key` fails only by a panic of this call or because the lock is poisoned -/
+  failedWhy : ∀ t, s.k.pc t = .failed → s.pc t = .panicked ∨ s.k.poisoned = true
+  /-- a caller that has opened did so on a file that is (now) encrypted under its key -/
+  okFile : ∀ t k, s.pc t = .ok k → s.file = .enc k
 
-theorem ninv_init : NInv ninit := by
-  refine ⟨invN_init none, ?_, ?_, ?_, ?_, ?_⟩ <;> simp [ninit, NPc.key, init]
+theorem ninv_init (p : Bool) : NInv (ninit p) := by
+  refine ⟨invN_init none p, ?_, ?_, ?_, ?_, ?_, ?_⟩ <;> simp [ninit, NPc.key, init]
 
-theorem stepThread_not_failed (s : St) (t fresh : Nat) (u : Nat) (h : ∀ u, s.pc u ≠ .failed) :
-    (stepThread s t fresh true).pc u ≠ .failed := by
-  by_cases e : u = t
-  · subst e
-    have := h u
-    cases hp : s.pc u <;> cases hr : s.ring <;> cases hl : s.lock <;>
-      simp_all [stepThread, setPc, log]
-  · rw [stepThread_pc_other s t fresh true u e]; exact h u
+/-- moving caller `t` to `p`, the file becoming `f`: what has to be checked -/
+theorem NInv.move {s : NSt} (h : NInv s) (t : Nat) (p : NPc) (f : NFile)
+    (hkey : ∀ k, p.key = some k → s.k.ring = some k)
+    (hfile : ∀ k, f = .enc k → s.k.ring = some k)
+    (hw : p ≠ .err .wrongKey)
+    (he : p = .err .keyring → s.k.poisoned = true)
+    (hf : s.k.pc t = .failed → p = .panicked ∨ s.k.poisoned = true)
+    (hok : ∀ k, p = .ok k → f = .enc k)
+    (hothers : ∀ u k, u ≠ t → s.pc u = .ok k → f = .enc k) :
+    NInv (nset { s with file := f } t p) := by
+  obtain ⟨hb, hk, hfk, hwk, hke, hfw, hof⟩ := h
+  refine ⟨hb, ?_, hfile, ?_, ?_, ?_, ?_⟩
+  · intro u k hu
+    by_cases e : u = t
+    · subst e; simp [nset] at hu; exact hkey k hu
+    · simp [nset, e] at hu; exact hk u k hu
+  · intro u; by_cases e : u = t
+    · subst e; simpa [nset] using hw
+    · simp [nset, e]; exact hwk u
+  · intro u; by_cases e : u = t
+    · subst e; simpa [nset] using he
+    · simp [nset, e]; exact hke u
+  · intro u; by_cases e : u = t
+    · subst e; simpa [nset] using hf
+    · simp [nset, e]; exact hfw u
+  · intro u k; by_cases e : u = t
+    · subst e; simpa [nset] using hok k
+    · simp [nset, e]; exact hothers u k e
 
-theorem ninv_step (s : NSt) (t fresh : Nat) (h : NInv s) : NInv (nstep s t fresh) := by
-  obtain ⟨hb, hk, hf, hw, he, hnf⟩ := h
-  have other : ∀ (p : NPc) (s' : NSt) (u : Nat), u ≠ t → (nset s' t p).pc u = s'.pc u := by
-    intro p s' u e; simp [nset, e]
+/-- … the file staying as it is -/
+theorem NInv.move' {s : NSt} (h : NInv s) (t : Nat) (p : NPc)
+    (hkey : ∀ k, p.key = some k → s.k.ring = some k)
+    (hw : p ≠ .err .wrongKey)
+    (he : p = .err .keyring → s.k.poisoned = true)
+    (hf : s.k.pc t = .failed → p = .panicked ∨ s.k.poisoned = true)
+    (hok : ∀ k, p = .ok k → s.file = .enc k) :
+    NInv (nset s t p) :=
+  h.move t p s.file hkey h.fileKey hw he hf hok (fun u k _ hu => h.okFile u k hu)
+
+/-- a caller that is not `panicked` and whose keyring call failed: the lock is poisoned -/
+theorem NInv.failed_poisoned {s : NSt} (h : NInv s) (t : Nat) (hp : s.pc t ≠ .panicked)
+    (hf : s.k.pc t = .failed) : s.k.poisoned = true := by
+  rcases h.failedWhy t hf with h1 | h1
+  · exact absurd h1 hp
+  · exact h1
+
+theorem ninv_step (s : NSt) (t fresh : Nat) (h : NInv s) : NInv (nstep true s t fresh) := by
   unfold nstep
   split
   · -- pre
     rename_i hp
+    have hnp : s.pc t ≠ .panicked := by rw [hp]; simp
     split
-    · refine ⟨hb, ?_, ?_, ?_, ?_, hnf⟩
-      · intro u k hu
-        by_cases e : u = t
-        · subst e; simp [nset, NPc.key] at hu
-        · simp [nset, e] at hu; exact hk u k hu
-      · intro k hk'; simp [nset] at hk'
-      · intro u; by_cases e : u = t
-        · subst e; simp [nset]
-        · simp [nset, e]; exact hw u
-      · intro u; by_cases e : u = t
-        · subst e; simp [nset]
-        · simp [nset, e]; exact he u
-    · refine ⟨hb, ?_, hf, ?_, ?_, hnf⟩
-      · intro u k hu
-        by_cases e : u = t
-        · subst e; simp [nset, NPc.key] at hu
-        · simp [nset, e] at hu; exact hk u k hu
-      · intro u; by_cases e : u = t
-        · subst e; simp [nset]
-        · simp [nset, e]; exact hw u
-      · intro u; by_cases e : u = t
-        · subst e; simp [nset]
-        · simp [nset, e]; exact he u
+    · rename_i hfile
+      refine h.move t .kr .empty (by simp [NPc.key]) (by simp) (by simp) (by simp)
+        (fun hf => .inr (h.failed_poisoned t hnp hf)) (by simp) ?_
+      intro u k _ hu; have := h.okFile u k hu; rw [hfile] at this; cases this
+    · exact h.move' t .chk (by simp [NPc.key]) (by simp) (by simp)
+        (fun hf => .inr (h.failed_poisoned t hnp hf)) (by simp)
   · -- kr
     rename_i hp
+    have hnp : s.pc t ≠ .panicked := by rw [hp]; simp
     split
     · rename_i k hd
-      have hr : s.k.ring = some k := hb.doneKey t k hd
-      refine ⟨hb, ?_, hf, ?_, ?_, hnf⟩
-      · intro u k' hu
-        by_cases e : u = t
-        · subst e; simp [nset, NPc.key] at hu; subst hu; exact hr
-        · simp [nset, e] at hu; exact hk u k' hu
-      · intro u; by_cases e : u = t
-        · subst e; simp [nset]
-        · simp [nset, e]; exact hw u
-      · intro u; by_cases e : u = t
-        · subst e; simp [nset]
-        · simp [nset, e]; exact he u
-    · rename_i hd; exact absurd hd (hnf t)
-    · refine ⟨invN_stepThread none s.k t fresh true hb, ?_, ?_, hw, he, ?_⟩
+      have hr : s.k.ring = some k := h.base.doneKey t k hd
+      exact h.move' t (.opening k) (by intro k' hk'; simp [NPc.key] at hk'; subst hk'; exact hr) (by simp) (by simp)
+        (fun hf => .inr (h.failed_poisoned t hnp hf)) (by simp)
+    · rename_i hd
+      exact h.move' t (.err .keyring) (by simp [NPc.key]) (by simp) (fun _ => h.failed_poisoned t hnp hd)
+        (fun hf => .inr (h.failed_poisoned t hnp hf)) (by simp)
+    · obtain ⟨hb, hk, hf, hw, he, hfw, hof⟩ := h
+      refine ⟨invN_stepThread none s.k t fresh true hb, ?_, ?_, hw, ?_, ?_, hof⟩
       · intro u k hu
         exact stepThread_ring_some s.k t fresh true hb.base k (hk u k hu)
       · intro k hk'
         exact stepThread_ring_some s.k t fresh true hb.base k (hf k hk')
-      · intro u; exact stepThread_not_failed s.k t fresh u hnf
+      · intro u hu; show (stepThread true s.k t fresh true).poisoned = true
+        rw [stepThread_poisoned]; exact he u hu
+      · intro u hu
+        show s.pc u = .panicked ∨ (stepThread true s.k t fresh true).poisoned = true
+        rw [stepThread_poisoned]
+        by_cases e : u = t
+        · subst e
+          rcases stepThread_failed_why s.k u fresh hu with h1 | h1
+          · exact hfw u h1
+          · exact .inr h1
+        · have hu' : (stepThread true s.k t fresh true).pc u = .failed := hu
+          rw [stepThread_pc_other true s.k t fresh true u e] at hu'; exact hfw u hu'
   · -- chk
+    rename_i hp
+    have hnp : s.pc t ≠ .panicked := by rw [hp]; simp
     split
     · rename_i k hr
-      refine ⟨hb, ?_, hf, ?_, ?_, hnf⟩
-      · intro u k' hu
-        by_cases e : u = t
-        · subst e; simp [nset, NPc.key] at hu; subst hu; exact hr
-        · simp [nset, e] at hu; exact hk u k' hu
-      · intro u; by_cases e : u = t
-        · subst e; simp [nset]
-        · simp [nset, e]; exact hw u
-      · intro u; by_cases e : u = t
-        · subst e; simp [nset]
-        · simp [nset, e]; exact he u
-    · refine ⟨hb, ?_, hf, ?_, ?_, hnf⟩
-      · intro u k' hu
-        by_cases e : u = t
-        · subst e; simp [nset, NPc.key] at hu
-        · simp [nset, e] at hu; exact hk u k' hu
-      · intro u; by_cases e : u = t
-        · subst e; simp [nset]
-        · simp [nset, e]; exact hw u
-      · intro u; by_cases e : u = t
-        · subst e; simp [nset]
-        · simp [nset, e]; exact he u
+      exact h.move' t (.opening k) (by intro k' hk'; simp [NPc.key] at hk'; subst hk'; exact hr) (by simp) (by simp)
+        (fun hf => .inr (h.failed_poisoned t hnp hf)) (by simp)
+    · exact h.move' t .probe (by simp [NPc.key]) (by simp) (by simp)
+        (fun hf => .inr (h.failed_poisoned t hnp hf)) (by simp)
   · -- probe
+    rename_i hp
+    have hnp : s.pc t ≠ .panicked := by rw [hp]; simp
     split
-    · refine ⟨hb, ?_, hf, ?_, ?_, hnf⟩
-      · intro u k' hu
-        by_cases e : u = t
-        · subst e; simp [nset, NPc.key] at hu
-        · simp [nset, e] at hu; exact hk u k' hu
-      · intro u; by_cases e : u = t
-        · subst e; simp [nset]
-        · simp [nset, e]; exact hw u
-      · intro u; by_cases e : u = t
-        · subst e; simp [nset]
-        · simp [nset, e]; exact he u
-    · refine ⟨hb, ?_, hf, ?_, ?_, hnf⟩
-      · intro u k' hu
-        by_cases e : u = t
-        · subst e; simp [nset, NPc.key] at hu
-        · simp [nset, e] at hu; exact hk u k' hu
-      · intro u; by_cases e : u = t
-        · subst e; simp [nset]
-        · simp [nset, e]; exact hw u
-      · intro u; by_cases e : u = t
-        · subst e; simp [nset]
-        · simp [nset, e]; exact he u
+    · exact h.move' t (.err .keyMissing) (by simp [NPc.key]) (by simp) (by simp)
+        (fun hf => .inr (h.failed_poisoned t hnp hf)) (by simp)
+    · exact h.move' t (.err .unencrypted) (by simp [NPc.key]) (by simp) (by simp)
+        (fun hf => .inr (h.failed_poisoned t hnp hf)) (by simp)
   · -- opening k
     rename_i k hp
-    have hr : s.k.ring = some k := hk t k (by simp [hp, NPc.key])
+    have hnp : s.pc t ≠ .panicked := by rw [hp]; simp
+    have hr : s.k.ring = some k := h.keyIsRing t k (by simp [hp, NPc.key])
     split
     · rename_i k' hfile
-      have hr' := hf k' hfile
+      have hr' := h.fileKey k' hfile
       have hkk : k = k' := by rw [hr] at hr'; exact Option.some.inj hr'
       simp only [hkk, if_true]
-      refine ⟨hb, ?_, hf, ?_, ?_, hnf⟩
-      · intro u k'' hu
-        by_cases e : u = t
-        · subst e; simp [nset, NPc.key] at hu; subst hu; exact hr'
-        · simp [nset, e] at hu; exact hk u k'' hu
-      · intro u; by_cases e : u = t
-        · subst e; simp [nset]
-        · simp [nset, e]; exact hw u
-      · intro u; by_cases e : u = t
-        · subst e; simp [nset]
-        · simp [nset, e]; exact he u
-    · refine ⟨hb, ?_, ?_, ?_, ?_, hnf⟩
-      · intro u k'' hu
-        by_cases e : u = t
-        · subst e; simp [nset, NPc.key] at hu; subst hu; exact hr
-        · simp [nset, e] at hu; exact hk u k'' hu
-      · intro k'' hk''; simp [nset] at hk''; subst hk''; exact hr
-      · intro u; by_cases e : u = t
-        · subst e; simp [nset]
-        · simp [nset, e]; exact hw u
-      · intro u; by_cases e : u = t
-        · subst e; simp [nset]
-        · simp [nset, e]; exact he u
-  · exact ⟨hb, hk, hf, hw, he, hnf⟩
-  · exact ⟨hb, hk, hf, hw, he, hnf⟩
-
-theorem ninv_run (s : NSt) (sched : List (Nat × Nat)) (h : NInv s) : NInv (nrun s sched) := by
-  induction sched generalizing s with
-  | nil => exact h
-  | cons e es ih => obtain ⟨t, f⟩ := e; exact ih _ (ninv_step s t f h)
-
-/-- a caller that opened did so on a file that is (now) encrypted under its key -/
-def NOkFile (s : NSt) : Prop := ∀ t k, s.pc t = .ok k → s.file = .enc k
-
-theorem nokfile_step (s : NSt) (t fresh : Nat) (h : NOkFile s) : NOkFile (nstep s t fresh) := by
-  intro u k hu
-  unfold nstep at hu ⊢
-  split at hu
-  · split at hu
+      exact h.move' t (.ok k') (by intro k'' hk''; simp [NPc.key] at hk''; subst hk''; exact hr') (by simp) (by simp)
+        (fun hf => .inr (h.failed_poisoned t hnp hf)) (by intro k'' hk''; simp at hk''; subst hk''; exact hfile)
     · rename_i hfile
+      refine h.move t (.ok k) (.enc k) (by intro k'' hk''; simp [NPc.key] at hk''; subst hk''; exact hr)
+        (by intro k'' hk''; simp at hk''; subst hk''; exact hr) (by simp) (by simp)
+        (fun hf => .inr (h.failed_poisoned t hnp hf)) (by intro k'' hk''; simp at hk''; subst hk''; rfl) ?_
+      intro u k'' _ hu; exact absurd (h.okFile u k'' hu) (hfile k'')
+  · exact h
+  · exact h
+  · exact h
+
+theorem ninv_panic (s : NSt) (t : Nat) (h : NInv s) : NInv (npanic s t) := by
+  unfold npanic
+  split
+  · exact h
+  · exact h
+  · exact h
+  · -- inside get_or_create_db_key
+    obtain ⟨hb, hk, hf, hw, he, hfw, hof⟩ := h
+    obtain ⟨f1, _, _⟩ := panicThread_frame s.k t
+    refine ⟨invN_panicThread none s.k t hb, ?_, ?_, ?_, ?_, ?_, ?_⟩
+    · intro u k hu
+      by_cases e : u = t
+      · subst e; simp [nset, NPc.key] at hu
+      · simp [nset, e] at hu; simp only [nset]; rw [f1]; exact hk u k hu
+    · intro k hk'; simp only [nset] at hk' ⊢; rw [f1]; exact hf k hk'
+    · intro u; by_cases e : u = t
+      · subst e; simp [nset]
+      · simp [nset, e]; exact hw u
+    · intro u hu
       by_cases e : u = t
       · subst e; simp [nset] at hu
-      · simp [nset, e] at hu; have := h u k hu; rw [hfile] at this; cases this
-    · by_cases e : u = t
-      · subst e; simp [nset] at hu
-      · simp [nset, e] at hu; simpa [nset] using h u k hu
-  · split at hu
-    · by_cases e : u = t
-      · subst e; simp [nset] at hu
-      · simp [nset, e] at hu; simpa [nset] using h u k hu
-    · by_cases e : u = t
-      · subst e; simp [nset] at hu
-      · simp [nset, e] at hu; simpa [nset] using h u k hu
-    · exact h u k hu
-  · split at hu
-    · by_cases e : u = t
-      · subst e; simp [nset] at hu
-      · simp [nset, e] at hu; simpa [nset] using h u k hu
-    · by_cases e : u = t
-      · subst e; simp [nset] at hu
-      · simp [nset, e] at hu; simpa [nset] using h u k hu
-  · split at hu
-    · by_cases e : u = t
-      · subst e; simp [nset] at hu
-      · simp [nset, e] at hu; simpa [nset] using h u k hu
-    · by_cases e : u = t
-      · subst e; simp [nset] at hu
-      · simp [nset, e] at hu; simpa [nset] using h u k hu
-  · rename_i k0 hp
-    split at hu
-    · rename_i k' hfile
-      by_cases hkk : k0 = k'
-      · simp only [hkk, if_true] at hu ⊢
-        by_cases e : u = t
-        · subst e; simp [nset] at hu; subst hu; simpa [nset] using hfile
-        · simp [nset, e] at hu; simpa [nset] using h u k hu
-      · simp only [hkk, if_false] at hu ⊢
-        by_cases e : u = t
-        · subst e; simp [nset] at hu
-        · simp [nset, e] at hu; simpa [nset] using h u k hu
-    · rename_i hfile
+      · simp [nset, e] at hu; simp only [nset]; exact panicThread_poisoned_mono s.k t (he u hu)
+    · intro u hu
       by_cases e : u = t
-      · subst e; simp [nset] at hu; subst hu; simp [nset]
-      · simp [nset, e] at hu
-        have := h u k hu
-        exact absurd this (by intro hc; exact hfile k hc)
-  · exact h u k hu
-  · exact h u k hu
+      · subst e; simp [nset]
+      · simp only [nset] at hu ⊢
+        rw [panicThread_pc_other s.k t u e] at hu
+        simp [e]
+        rcases hfw u hu with h1 | h1
+        · exact .inl h1
+        · exact .inr (panicThread_poisoned_mono s.k t h1)
+    · intro u k hu
+      by_cases e : u = t
+      · subst e; simp [nset] at hu
+      · simp [nset, e] at hu; simpa [nset] using hof u k hu
+  · exact h.move' t .panicked (by simp [NPc.key]) (by simp) (by simp) (fun _ => .inl rfl) (by simp)
 
-theorem nokfile_run (s : NSt) (sched : List (Nat × Nat)) (h : NOkFile s) : NOkFile (nrun s sched) := by
+theorem ninv_stepEv (s : NSt) (e : NEv) (h : NInv s) : NInv (nstepEv true s e) := by
+  cases e with
+  | step t f => exact ninv_step s t f h
+  | panic t => exact ninv_panic s t h
+
+theorem ninv_run (s : NSt) (sched : List NEv) (h : NInv s) : NInv (nrun true s sched) := by
   induction sched generalizing s with
   | nil => exact h
-  | cons e es ih => obtain ⟨t, f⟩ := e; exact ih _ (nokfile_step s t f h)
+  | cons e es ih => exact ih _ (ninv_stepEv s e h)
 
-theorem nokfile_init : NOkFile ninit := by intro t k h; simp [ninit] at h
-
-theorem nrun_append (s : NSt) (a b : List (Nat × Nat)) : nrun s (a ++ b) = nrun (nrun s a) b := by
+theorem nrun_append (fc : Bool) (s : NSt) (a b : List NEv) : nrun fc s (a ++ b) = nrun fc (nrun fc s a) b := by
   induction a generalizing s with
   | nil => rfl
-  | cons e es ih => obtain ⟨t, f⟩ := e; simp [nrun, ih]
+  | cons e es ih => simp [nrun, ih]
+
+/-- the poison flag of a `new` run changes only by a panic -/
+theorem nrun_no_panic_poisoned (fc : Bool) (s : NSt) (sched : List NEv)
+    (hnp : sched.all (fun e => !e.isPanic) = true) : (nrun fc s sched).k.poisoned = s.k.poisoned := by
+  induction sched generalizing s with
+  | nil => rfl
+  | cons e es ih =>
+    simp only [List.all_cons, Bool.and_eq_true] at hnp
+    simp only [nrun]
+    rw [ih _ hnp.2]
+    cases e with
+    | panic t => simp [NEv.isPanic] at hnp
+    | step t f =>
+      simp only [nstepEv, nstep]
+      split
+      · split <;> rfl
+      · split
+        · rfl
+        · rfl
+        · exact stepThread_poisoned fc s.k t f true
+      · split <;> rfl
+      · split <;> rfl
+      · split
+        · split <;> rfl
+        · rfl
+      · rfl
+      · rfl
+      · rfl
+
+/-- a step of a `new` call leaves the keyring part alone or is one step of it -/
+theorem nstepEv_k (fc : Bool) (s : NSt) (e : NEv) :
+    (nstepEv fc s e).k = s.k ∨ ∃ ev, (nstepEv fc s e).k = step fc s.k ev := by
+  cases e with
+  | step t f =>
+    simp only [nstepEv, nstep]
+    split
+    · split <;> exact .inl rfl
+    · split
+      · exact .inl rfl
+      · exact .inl rfl
+      · exact .inr ⟨.step t f true, rfl⟩
+    · split <;> exact .inl rfl
+    · split <;> exact .inl rfl
+    · split
+      · split <;> exact .inl rfl
+      · exact .inl rfl
+    · exact .inl rfl
+    · exact .inl rfl
+    · exact .inl rfl
+  | panic t =>
+    simp only [nstepEv, npanic]
+    split
+    · exact .inl rfl
+    · exact .inl rfl
+    · exact .inl rfl
+    · exact .inr ⟨.panic t, rfl⟩
+    · exact .inl rfl
+
+theorem nfrozen_run (s0 : St) (s : NSt) (sched : List NEv) (h : Frozen s0 s.k) :
+    Frozen s0 (nrun true s sched).k := by
+  induction sched generalizing s with
+  | nil => exact h
+  | cons e es ih =>
+    apply ih
+    rcases nstepEv_k true s e with h1 | ⟨ev, h1⟩
+    · rw [h1]; exact h
+    · rw [h1]; exact frozen_step s0 s.k ev h
 
 /-- after the creator has finished: the file is encrypted under `f`, the keyring holds `f`, and every
-    caller is before its keyring read, or holds `f` -/
+    caller is before its keyring read, or holds `f`, or has panicked -/
 structure NDone (f : Nat) (s : NSt) : Prop where
   file : s.file = .enc f
   ring : s.k.ring = some f
-  pcs : ∀ u, s.pc u = .pre ∨ s.pc u = .chk ∨ s.pc u = .opening f ∨ s.pc u = .ok f
+  pcs : ∀ u, s.pc u = .pre ∨ s.pc u = .chk ∨ s.pc u = .opening f ∨ s.pc u = .ok f ∨ s.pc u = .panicked
 
-theorem ndone_step (f : Nat) (s : NSt) (t fresh : Nat) (h : NDone f s) : NDone f (nstep s t fresh) := by
+theorem ndone_step (fc : Bool) (f : Nat) (s : NSt) (e : NEv) (h : NDone f s) : NDone f (nstepEv fc s e) := by
   obtain ⟨hf, hr, hp⟩ := h
-  have keep : ∀ (p : NPc), (p = .pre ∨ p = .chk ∨ p = .opening f ∨ p = .ok f) →
+  have keep : ∀ (t : Nat) (p : NPc), (p = .pre ∨ p = .chk ∨ p = .opening f ∨ p = .ok f ∨ p = .panicked) →
       NDone f (nset s t p) := by
-    intro p hpp
+    intro t p hpp
     refine ⟨by simpa [nset] using hf, by simpa [nset] using hr, ?_⟩
     intro u; by_cases e : u = t
     · subst e; simpa [nset] using hpp
     · simpa [nset, e] using hp u
-  rcases hp t with h0 | h0 | h0 | h0
-  · have : nstep s t fresh = nset s t .chk := by simp [nstep, h0, hf]
-    rw [this]; exact keep _ (by simp)
-  · have : nstep s t fresh = nset s t (.opening f) := by simp [nstep, h0, hr]
-    rw [this]; exact keep _ (by simp)
-  · have : nstep s t fresh = nset s t (.ok f) := by simp [nstep, h0, hf]
-    rw [this]; exact keep _ (by simp)
-  · have : nstep s t fresh = s := by simp [nstep, h0]
-    rw [this]; exact ⟨hf, hr, hp⟩
+  cases e with
+  | step t fresh =>
+    simp only [nstepEv]
+    rcases hp t with h0 | h0 | h0 | h0 | h0
+    · have : nstep fc s t fresh = nset s t .chk := by simp [nstep, h0, hf]
+      rw [this]; exact keep _ _ (by simp)
+    · have : nstep fc s t fresh = nset s t (.opening f) := by simp [nstep, h0, hr]
+      rw [this]; exact keep _ _ (by simp)
+    · have : nstep fc s t fresh = nset s t (.ok f) := by simp [nstep, h0, hf]
+      rw [this]; exact keep _ _ (by simp)
+    · have : nstep fc s t fresh = s := by simp [nstep, h0]
+      rw [this]; exact ⟨hf, hr, hp⟩
+    · have : nstep fc s t fresh = s := by simp [nstep, h0]
+      rw [this]; exact ⟨hf, hr, hp⟩
+  | panic t =>
+    simp only [nstepEv]
+    rcases hp t with h0 | h0 | h0 | h0 | h0
+    · have : npanic s t = nset s t .panicked := by simp [npanic, h0]
+      rw [this]; exact keep _ _ (by simp)
+    · have : npanic s t = nset s t .panicked := by simp [npanic, h0]
+      rw [this]; exact keep _ _ (by simp)
+    · have : npanic s t = nset s t .panicked := by simp [npanic, h0]
+      rw [this]; exact keep _ _ (by simp)
+    · have : npanic s t = s := by simp [npanic, h0]
+      rw [this]; exact ⟨hf, hr, hp⟩
+    · have : npanic s t = s := by simp [npanic, h0]
+      rw [this]; exact ⟨hf, hr, hp⟩
 
-theorem ndone_run (f : Nat) (s : NSt) (sched : List (Nat × Nat)) (h : NDone f s) : NDone f (nrun s sched) := by
+theorem ndone_run (fc : Bool) (f : Nat) (s : NSt) (sched : List NEv) (h : NDone f s) : NDone f (nrun fc s sched) := by
   induction sched generalizing s with
   | nil => exact h
-  | cons e es ih => obtain ⟨t, fr⟩ := e; exact ih _ (ndone_step f s t fr h)
+  | cons e es ih => exact ih _ (ndone_step fc f s e h)
 
-/-- eight steps of a lone creator: precreate, read, lock, read, generate, store, return, open -/
-theorem creator_prefix_done (t f : Nat) : NDone f (nrun ninit (List.replicate 8 (t, f))) := by
+/-- eight steps of a lone creator (lock not poisoned): precreate, read, lock, read, generate, store,
+    return, open -/
+theorem creator_prefix_done (fc : Bool) (t f : Nat) :
+    NDone f (nrun fc ninit (List.replicate 8 (.step t f))) := by
   refine ⟨?_, ?_, ?_⟩
-  · simp [List.replicate, nrun, nstep, ninit, nset, init, stepThread, setPc, log]
-  · simp [List.replicate, nrun, nstep, ninit, nset, init, stepThread, setPc, log]
+  · simp [List.replicate, nrun, nstepEv, nstep, ninit, nset, init, stepThread, setPc, log]
+  · simp [List.replicate, nrun, nstepEv, nstep, ninit, nset, init, stepThread, setPc, log]
   · intro u
     by_cases e : u = t
-    · subst e; simp [List.replicate, nrun, nstep, ninit, nset, init, stepThread, setPc, log]
-    · simp [List.replicate, nrun, nstep, ninit, nset, init, stepThread, setPc, log, e]
+    · subst e; simp [List.replicate, nrun, nstepEv, nstep, ninit, nset, init, stepThread, setPc, log]
+    · simp [List.replicate, nrun, nstepEv, nstep, ninit, nset, init, stepThread, setPc, log, e]
 
 end MdkVerif.Keyring
 
